@@ -175,7 +175,12 @@ def math_filter(_filter: Callable[..., Any]) -> Callable[..., Any]:
         if is_undefined(val):
             val.poke()
         val = num_arg(val, default=0)
-        return _filter(val, *args, **kwargs)
+        try:
+            return _filter(val, *args, **kwargs)
+        except (ArithmeticError, ValueError) as err:
+            # inf and nan operands: OverflowError and ValueError from int(),
+            # decimal.InvalidOperation from Decimal arithmetic.
+            raise LiquidTypeError(str(err), token=None) from err
 
     return wrapper
 
